@@ -226,8 +226,12 @@ func configureBasicUploadAdapter(m *concreteManifest) {
 }
 
 func (a *basicUploadAdapter) makeRequest(t *Transfer, req *http.Request) (*http.Response, error) {
+	return a.makeRequestAttempt(t, req, maxAuthResubmissions)
+}
+
+func (a *basicUploadAdapter) makeRequestAttempt(t *Transfer, req *http.Request, left int) (*http.Response, error) {
 	res, err := a.doHTTP(t, req)
-	if errors.IsAuthError(err) && len(req.Header.Get("Authorization")) == 0 {
+	if left > 0 && errors.IsAuthError(err) && len(req.Header.Get("Authorization")) == 0 {
 		// Construct a new body with just the raw file and no callbacks. Since
 		// all progress tracking happens when the net.http code copies our
 		// request body into a new request, we can safely make this request
@@ -237,7 +241,7 @@ func (a *basicUploadAdapter) makeRequest(t *Transfer, req *http.Request) (*http.
 		defer f.Close()
 
 		req.Body = tools.NewBodyWithCallback(f, t.Size, nil)
-		return a.makeRequest(t, req)
+		return a.makeRequestAttempt(t, req, left-1)
 	}
 
 	return res, err
